@@ -10,7 +10,7 @@ open DW
 
 /-- the constructor fields without default that the document did not provide -/
 def requiredMissing (ci : ClassInfo) (provided : List S) : List S :=
-  ((ci.fields.filter (fun f => f.init && f.dflt.isNone && !provided.contains f.name)).map (·.name))
+  (missingInit ci provided).map (·.name)
 
 def noCatchAll (ci : ClassInfo) : Prop := ci.fields.find? (·.isCatchAll) = none
 
@@ -21,16 +21,15 @@ theorem C09_missing_exact (ci : ClassInfo) (kwargs : List (S × PyVal)) (o : JVa
     finishClass ci kwargs [] o = .error (.missingFields ci.name (requiredMissing ci (kwargs.map (·.1)))) := by
   unfold noCatchAll at hc
   unfold requiredMissing at hm ⊢
-  simp only [finishClass, hc]
-  generalize hL : ci.fields.filter (fun f => f.init && f.dflt.isNone && !(kwargs.map (·.1)).contains f.name) = L at hm ⊢
-  cases L with
-  | nil => exact absurd rfl hm
+  simp only [finishClass, withCatchAll, hc]
+  cases hL : missingInit ci (kwargs.map (·.1)) with
+  | nil => simp [hL] at hm
   | cons a l => rfl
 
 /-- init=False fields are never demanded: no name in a MissingFields list belongs to an init=False field. -/
 theorem C09_init_false_never_demanded (ci : ClassInfo) (provided : List S) (n : S)
     (h : n ∈ requiredMissing ci provided) : ∃ f ∈ ci.fields, f.name = n ∧ f.init = true ∧ f.dflt = none := by
-  unfold requiredMissing at h
+  unfold requiredMissing missingInit at h
   simp only [List.mem_map, List.mem_filter] at h
   obtain ⟨f, ⟨hf, hp⟩, rfl⟩ := h
   simp only [Bool.and_eq_true, Option.isNone_iff_eq_none] at hp
@@ -55,17 +54,17 @@ def fieldValue (kwargs : List (S × PyVal)) (f : FieldInfo) : Option PyVal :=
   | none, none => f.postInit.map Lit.toPy
 
 theorem build_spec (kwargs : List (S × PyVal)) (fs : List FieldInfo) (out : List (S × PyVal))
-    (h : finishClass.build kwargs fs = .ok out) :
+    (h : buildFields kwargs fs = .ok out) :
     out.map (·.1) = fs.map (·.name) ∧ ∀ p ∈ out, ∃ f ∈ fs, p.1 = f.name ∧ fieldValue kwargs f = some p.2 := by
   induction fs generalizing out with
   | nil =>
-    simp [finishClass.build, pure, Except.pure] at h
+    simp [buildFields, pure, Except.pure] at h
     subst h; simp
   | cons f r ih =>
-    simp only [finishClass.build] at h
+    simp only [buildFields] at h
     split at h
     · rename_i p _ hp
-      cases hr : finishClass.build kwargs r with
+      cases hr : buildFields kwargs r with
       | error e => simp [hr, bind, Except.bind] at h
       | ok rest =>
         simp [hr, bind, Except.bind, pure, Except.pure] at h
@@ -80,7 +79,7 @@ theorem build_spec (kwargs : List (S × PyVal)) (fs : List FieldInfo) (out : Lis
           · obtain ⟨g, hg, hh⟩ := h2 q hq
             exact ⟨g, by simp [hg], hh⟩
     · rename_i d hp hd
-      cases hr : finishClass.build kwargs r with
+      cases hr : buildFields kwargs r with
       | error e => simp [hr, bind, Except.bind] at h
       | ok rest =>
         simp [hr, bind, Except.bind, pure, Except.pure] at h
@@ -97,7 +96,7 @@ theorem build_spec (kwargs : List (S × PyVal)) (fs : List FieldInfo) (out : Lis
     · rename_i hp hd
       split at h
       · rename_i l hl
-        cases hr : finishClass.build kwargs r with
+        cases hr : buildFields kwargs r with
         | error e => simp [hr, bind, Except.bind] at h
         | ok rest =>
           simp [hr, bind, Except.bind, pure, Except.pure] at h
@@ -120,16 +119,16 @@ theorem C09_success_fields (ci : ClassInfo) (kwargs : List (S × PyVal)) (o : JV
     ci' = ci ∧ out.map (·.1) = ci.fields.map (·.name) ∧
       ∀ p ∈ out, ∃ f ∈ ci.fields, p.1 = f.name ∧ fieldValue kwargs f = some p.2 := by
   unfold noCatchAll at hc
-  simp only [finishClass, hc] at h
+  simp only [finishClass, withCatchAll, hc] at h
   split at h
-  · simp at h
-  · cases hb : finishClass.build kwargs ci.fields with
+  · cases hb : buildFields kwargs ci.fields with
     | error e => simp [hb, bind, Except.bind] at h
     | ok fs =>
       simp [hb, bind, Except.bind, pure, Except.pure] at h
       obtain ⟨h1, h2⟩ := h
       subst h1 h2
       exact ⟨rfl, build_spec kwargs ci.fields fs hb⟩
+  · simp at h
 
 /-- ... and loading succeeds only if no required constructor field is absent. -/
 theorem C09_success_only_if_complete (ci : ClassInfo) (kwargs : List (S × PyVal)) (o : JVal) (hc : noCatchAll ci)
